@@ -50,6 +50,32 @@ def scanLines : List Line → Bool → List String
 def loadAllowList (lines : List Line) (pemHashes : List String) : List String :=
   scanLines lines false ++ pemHashes
 
+/-- The second loop of `add_end_entity_credentials` over what `Pem::iter_from_buffer` yields
+(`none` = `Err(_)`: a block that is present but invalid, e.g. a body that is not base64). The first
+`Err` ends the function with `Err`; the hashes of the blocks before it were already inserted.
+Returns (`is_ok()`, inserted hashes). -/
+def loadPems : List (Option String) → Bool × List String
+  | [] => (true, [])
+  | none :: _ => (false, [])
+  | some h :: rest => ((loadPems rest).1, h :: (loadPems rest).2)
+
+/-- `add_end_entity_credentials` with its failure path: the hash lines of the first loop are
+inserted whatever the PEM loop does afterwards. Returns (`is_ok()`, what the set gained). -/
+def loadAllowListR (lines : List Line) (pems : List (Option String)) : Bool × List String :=
+  ((loadPems pems).1, scanLines lines false ++ (loadPems pems).2)
+
+/-- `add_trust_anchors` / `add_user_trust_anchors` over the PEM blocks of the text (`true` = the
+iterator yields `Ok`): DERs are pushed until the first `Err`. Returns (`is_ok()`, number pushed). -/
+def loadAnchors : List Bool → Bool × Nat
+  | [] => (true, 0)
+  | false :: _ => (false, 0)
+  | true :: rest => ((loadAnchors rest).1, (loadAnchors rest).2 + 1)
+
+/-- `add_valid_ekus`: the lines `Oid::from_str` accepts (flag `b64ok` of `Line` is reused as
+"parses as an OID"). -/
+def loadEkus (lines : List Line) : List String :=
+  (lines.filter (·.b64ok)).map (·.text)
+
 structure Policy where
   passthrough : Bool := false
   /-- `end_entity_cert_set` -/
@@ -61,6 +87,34 @@ structure Policy where
   /-- `additional_ekus` -/
   allowedEkus : List String := []
   deriving DecidableEq, Repr
+
+/-- The `trust` section of the settings as `Store::from_context` reads it (`none` = the setting
+is absent). Anchor texts are given as the list of their PEM blocks (`true` = decodable PEM). -/
+structure TrustSettings where
+  trustAnchors : Option (List Bool) := none
+  userAnchors : Option (List Bool) := none
+  trustConfig : Option (List Line) := none
+  allowedList : Option (List Line × List (Option String)) := none
+  deriving Repr
+
+/-- `Store::from_context`: `CertificateTrustPolicy::default()` (the built-in EKU list `defaults`,
+no anchors outside `cfg(test)`) plus each present setting, every `Err` ignored (`let _v = …`).
+No setting selects passthrough or trust-anchors-only. -/
+def fromContext (defaults : List String) (s : TrustSettings) : Policy :=
+  { passthrough := false
+    allowSet := match s.allowedList with
+      | none => []
+      | some (ls, ps) => (loadAllowListR ls ps).2
+    nSys := match s.trustAnchors with
+      | none => 0
+      | some bs => (loadAnchors bs).2
+    nUser := match s.userAnchors with
+      | none => 0
+      | some bs => (loadAnchors bs).2
+    anchorsOnly := false
+    allowedEkus := defaults ++ (match s.trustConfig with
+      | none => []
+      | some ls => loadEkus ls) }
 
 /-- What is known about the credential being judged. -/
 structure Query where
@@ -108,7 +162,12 @@ def opensslCheck (p : Policy) (q : Query) : Except TrustErr Anchor :=
 /-- `certificate_trust::rust_native::check_certificate_trust` as far as its control flow goes:
 `sysValid` / `userValid` stand for "some certificate of the (ordered, internally consistent) chain
 is issued and correctly signed by a system / user anchor, and no certificate walked before it was
-outside its validity window". The walk tries the system anchors first for each certificate. -/
+outside its validity window". The walk goes from the last certificate of the chain to the first and
+tries the system anchors, then (unless anchors-only) the user anchors, *at each certificate*: when
+both stores would verify, the kind of anchor reported depends on the positions, which this
+control-flow model does not carry (it answers `.system`). What the theorems use of this backend —
+the gates before the walk, and that anchors-only suppresses every `User` answer — does not depend on
+that. The backend is not compiled into the harness build, so nothing ties this function to the code. -/
 def rustNativeCheck (p : Policy) (q : Query) : Except TrustErr Anchor :=
   if p.nSys == 0 && p.nUser == 0 then .error .certificateNotTrusted
   else
@@ -150,15 +209,87 @@ def Verdict.toTrust : Verdict → Trust
   | .trusted => .trusted
   | _ => .untrusted
 
-/-- The active-manifest signature codes and the state for a credential: C06's profile decision,
-this file's trust decision, C04's state. -/
-def credentialCodes (mode : Mode) (b : Backend) (env : C06.Env) (f : C06.CertFacts) (p : Policy)
-    (q : Query) (sigOk : Bool) : C04.Codes :=
-  C06.signatureCodes mode (C06.checkEndEntity env f) (verifyTrust mode b p q).toTrust sigOk
+/-- The EKU extension as the trust backends read it: `extended_key_usage()` must be
+`Ok(Some(_))`. -/
+def ekuOfFacts : C06.EkuExt → Option Eku
+  | .some e => some e
+  | _ => none
 
-def credentialState (mode : Mode) (b : Backend) (env : C06.Env) (f : C06.CertFacts) (p : Policy)
-    (q : Query) (sigOk : Bool) : C04.State :=
-  C04.state (C06.resultsOf (credentialCodes mode b env f p q sigOk))
+/-- The profile check and the trust check look at the *same* certificate bytes: what the trust
+backends decode (`from_der`, `extended_key_usage`) is what the profile check decoded. -/
+def queryOf (f : C06.CertFacts) (q : Query) : Query :=
+  { q with eeParses := f.parses, eku := ekuOfFacts f.eku }
+
+/-- …and both read the accepted EKUs from the one `CertificateTrustPolicy` handed to the
+`Verifier`. -/
+def envOf (p : Policy) (tst : Option Int) (now : Int) : C06.Env :=
+  { tst := tst, now := now, allowedEkus := p.allowedEkus }
+
+/-- The active-manifest signature codes and the state for a credential: C06's profile decision,
+this file's trust decision (same policy, same certificate), C04's state. -/
+def credentialCodes (mode : Mode) (b : Backend) (tst : Option Int) (now : Int) (f : C06.CertFacts)
+    (p : Policy) (q : Query) (sigOk : Bool) : C04.Codes :=
+  C06.signatureCodes mode (C06.checkEndEntity (envOf p tst now) f)
+    (verifyTrust mode b p (queryOf f q)).toTrust sigOk
+
+def credentialState (mode : Mode) (b : Backend) (tst : Option Int) (now : Int) (f : C06.CertFacts)
+    (p : Policy) (q : Query) (sigOk : Bool) : C04.State :=
+  C04.state (C06.resultsOf (credentialCodes mode b tst now f p q sigOk))
+
+/-! ### `cert_chain_from_sign1` and `Verifier::verify_signature` -/
+
+/-- What one COSE header holds under the `x5chain` label the code looks for there (protected:
+text `"x5chain"` or integer 33; unprotected: text `"x5chain"` only): no such entry; an entry
+`cert_chain_from_cbor_value` rejects (an array without any byte string, or a value that is neither
+array nor byte string); an entry yielding at least one DER blob. -/
+inductive HeaderChain | absent | bad | chain
+  deriving DecidableEq, Repr
+
+inductive ChainErr | missing | multiple
+  deriving DecidableEq, Repr
+
+/-- `cert_chain_from_sign1`: `Ok` always carries a non-empty vector (so `certs[0]` is defined). -/
+def certChainFromSign1 (prot unprot : HeaderChain) : Except ChainErr Unit :=
+  match prot with
+  | .absent =>
+    match unprot with
+    | .chain => .ok ()
+    | _ => .error .missing
+  | _ =>
+    if unprot = .chain then .error .multiple
+    else match prot with
+      | .chain => .ok ()
+      | _ => .error .missing
+
+/-- `CoseError` kinds `verify_signature` returns after the algorithm checks. -/
+inductive VErr | missingChain | multipleChains | cborParsing | signature
+  deriving DecidableEq, Repr
+
+structure VerifyOut where
+  result : Except VErr Unit
+  success : List C04.Code
+  failure : List C04.Code
+  deriving Repr
+
+/-- `Verifier::verify_signature` after the COSE structure and algorithm were accepted:
+`verify_profile(..).ok()`, `verify_trust(..).ok()` (both return early, *without logging*, when
+the chain cannot be extracted), then the chain again with `?`, the end-entity certificate's
+`from_der`, the raw signature, the subject organisation. -/
+def verifySignature (mode : Mode) (b : Backend) (tst : Option Int) (now : Int) (f : C06.CertFacts)
+    (p : Policy) (q : Query) (prot unprot : HeaderChain) (sigOk hasOrg : Bool) : VerifyOut :=
+  match certChainFromSign1 prot unprot with
+  | .error .missing => { result := .error .missingChain, success := [], failure := [] }
+  | .error .multiple => { result := .error .multipleChains, success := [], failure := [] }
+  | .ok _ =>
+    let prof := C06.checkEndEntity (envOf p tst now) f
+    let t := C06.trustCodes mode (verifyTrust mode b p (queryOf f q)).toTrust
+    { success := t.1
+      failure := C06.profileFailure mode prof ++ t.2
+      result :=
+        if !f.parses then .error .cborParsing
+        else if !sigOk then .error .signature
+        else if !hasOrg then .error .missingChain
+        else .ok () }
 
 /-! ### line protocol -/
 
@@ -188,18 +319,56 @@ def parseLines (s : String) : List Line :=
 
 def parseList (s : String) : List String := if s == "-" then [] else s.splitOn ","
 
+/-- `pems=-` or comma list of block hashes, `!` for a block the PEM reader rejects. -/
+def parsePems (s : String) : List (Option String) :=
+  (parseList s).map fun h => if h == "!" then none else some h
+
+/-- `-` (setting absent), `e` (present, no PEM block) or one character per PEM block: `1` = the
+PEM reader yields `Ok`, `0` = `Err`. -/
+def parseBlocks (s : String) : Option (List Bool) :=
+  if s == "-" then none
+  else if s == "e" then some []
+  else some (s.toList.map (· == '1'))
+
+def blocksOr (s : String) : List Bool := (parseBlocks s).getD []
+
 def parseEkuOpt (s : String) : Option Eku :=
   match C06.parseEku s with
   | .some e => some e
   | _ => none
 
+/-- The policy the function-level driver builds through the public API: `default()` or
+`passthrough()`, then `add_trust_anchors` / `add_user_trust_anchors` / `add_end_entity_credentials`
+/ `add_valid_ekus` (errors ignored, as `Store::from_context` does), `set_trust_anchors_only`.
+`cfg` = the built-in EKU list of the starting policy, `tc` = the lines given to `add_valid_ekus`. -/
 def parsePolicy (toks : List String) : Policy :=
   { passthrough := bit toks "pass"
-    allowSet := loadAllowList (parseLines (field toks "lines")) (parseList (field toks "pems"))
-    nSys := (field toks "nsys").toNat?.getD 0
-    nUser := (field toks "nuser").toNat?.getD 0
+    allowSet := (loadAllowListR (parseLines (field toks "lines")) (parsePems (field toks "pems"))).2
+    nSys := (loadAnchors (blocksOr (field toks "sblk"))).2
+    nUser := (loadAnchors (blocksOr (field toks "ublk"))).2
     anchorsOnly := bit toks "only"
-    allowedEkus := parseList (field toks "cfg") }
+    allowedEkus := parseList (field toks "cfg") ++ loadEkus (parseLines (field toks "tc")) }
+
+/-- The `trust` settings of an end-to-end request: `sblk`/`ublk`/`tc`/`al` are `-` when the setting
+is absent. -/
+def parseSettings (toks : List String) : TrustSettings :=
+  { trustAnchors := parseBlocks (field toks "sblk")
+    userAnchors := parseBlocks (field toks "ublk")
+    trustConfig := if field toks "tc" == "-" then none else some (parseLines (field toks "tc"))
+    allowedList := if field toks "al" == "0" then none
+      else some (parseLines (field toks "lines"), parsePems (field toks "pems")) }
+
+def parseHeaderChain : String → HeaderChain
+  | "chain" => .chain | "bad" => .bad | _ => .absent
+
+def VErr.str : VErr → String
+  | .missingChain => "MissingSigningCertificateChain"
+  | .multipleChains => "MultipleSigningCertificateChains"
+  | .cborParsing => "CborParsingError"
+  | .signature => "Signature"
+
+def listStr (l : List C04.Code) : String :=
+  if l.isEmpty then "-" else ",".intercalate (l.map String.ofList)
 
 def parseQuery (toks : List String) : Query :=
   { certHash := field toks "hash"
@@ -219,15 +388,27 @@ def handle (toks : List String) : String :=
     match checkTrust (parseBackend (field rest "backend")) (parsePolicy rest) (parseQuery rest) with
     | .ok a => "ok:" ++ a.str
     | .error e => "err:" ++ e.str
-  | "allow" :: rest =>
-    let l := loadAllowList (parseLines (field rest "lines")) (parseList (field rest "pems"))
-    if l.isEmpty then "-" else ",".intercalate l
+  | "load" :: rest =>
+    -- one `add_end_entity_credentials` call on an empty policy: `is_ok()` and the resulting set
+    let a := loadAllowListR (parseLines (field rest "lines")) (parsePems (field rest "pems"))
+    let set := (a.2.mergeSort (fun x y => !(decide (y < x)))).eraseDups
+    (if a.1 then "ok" else "err") ++ ":" ++ (if set.isEmpty then "-" else ",".intercalate set)
   | "e2e" :: rest =>
     let mode := C06.parseMode (field rest "mode")
     let b := parseBackend (field rest "backend")
-    let c := credentialCodes mode b (C06.parseEnv rest) (C06.parseFacts rest) (parsePolicy rest)
-      (parseQuery rest) (bit rest "sigok")
+    let env := C06.parseEnv rest
+    let p := fromContext (parseList (field rest "cfg")) (parseSettings rest)
+    let c := credentialCodes mode b env.tst env.now (C06.parseFacts rest) p (parseQuery rest) (bit rest "sigok")
     (C04.state (C06.resultsOf c)).str ++ " " ++ C06.codesStr c
+  | "verify" :: rest =>
+    let mode := C06.parseMode (field rest "mode")
+    let env := C06.parseEnv rest
+    let o := verifySignature mode (parseBackend (field rest "backend")) env.tst env.now (C06.parseFacts rest)
+      (parsePolicy rest) (parseQuery rest) (parseHeaderChain (field rest "prot"))
+      (parseHeaderChain (field rest "unprot")) (bit rest "sigok") (bit rest "org")
+    (match o.result with
+      | .ok _ => "ok"
+      | .error e => "err:" ++ e.str) ++ " S=" ++ listStr o.success ++ " F=" ++ listStr o.failure
   | _ => "bad-op"
 
 end C2pa.C05
